@@ -69,8 +69,8 @@ def run(ctx):
     quick = ctx.tier == "quick"
     b = ctx.go_test_binary("fs/layer", "h_layer")
     if b:
-        ctx.correspond(b, "TestVerifC07", "svdriver_c07", "c07", env={"VERIF_N": 70 if quick else 1500})
-        findings_stream(ctx, b, 20 if quick else 300)
+        ctx.correspond(b, "TestVerifC07", "svdriver_c07", "c07", env={"VERIF_N": 70 if quick else 4000})
+        findings_stream(ctx, b, 20 if quick else 600)
     return ctx.finish(
         level="proof",
         rule="one case = one layer built by the real builder from a generated tar (additions, whiteouts, opaque "
